@@ -435,17 +435,32 @@ func typeSwitchArms(fd *ast.FuncDecl) []string {
 // `x, ok := msg.(T)` and the call made when the assertion holds.
 func probeOrder(fd *ast.FuncDecl) []string {
 	var out []string
-	for _, st := range fd.Body.List {
+	// a statement that is not a probe — a guard that returns before the probes, work done ahead of them — is
+	// part of the dispatcher's shape too: it is listed as "stmt:<text>" (the closing `return …` excepted)
+	other := func(i int, st ast.Stmt) {
+		if _, isRet := st.(*ast.ReturnStmt); isRet && i == len(fd.Body.List)-1 {
+			return
+		}
+		txt := strings.Join(strings.Fields(nodeString(st)), " ")
+		if len(txt) > 80 {
+			txt = txt[:80]
+		}
+		out = append(out, "stmt:"+txt)
+	}
+	for i, st := range fd.Body.List {
 		ifs, ok := st.(*ast.IfStmt)
 		if !ok {
+			other(i, st)
 			continue
 		}
 		as, ok := ifs.Init.(*ast.AssignStmt)
 		if !ok || len(as.Rhs) != 1 {
+			other(i, st)
 			continue
 		}
 		ta, ok := as.Rhs[0].(*ast.TypeAssertExpr)
 		if !ok {
+			other(i, st)
 			continue
 		}
 		var calls []string
@@ -817,8 +832,8 @@ func main() {
 	x := &xlate{p: root}
 	type fx struct {
 		fn, lhs, lean string
-		only         map[string]bool
-		retW         int
+		only          map[string]bool
+		retW          int
 	}
 	for _, f := range []fx{
 		{"SizeOfVarint", "", "SizeOfVarint", nil, 64},
